@@ -13,6 +13,7 @@ pub fn singleton_load__KEY_CONFIG(storage: &dyn Storage) -> (r: StdResult<Config
 #[verifier::external_body]
 pub fn singleton_save__KEY_CONFIG(storage: &mut dyn Storage, v: &Config) -> (r: StdResult<()>)
     ensures
+        r is Ok,   // serde serialisation of these plain types cannot fail (T4)
         r is Ok ==> final(storage).view() == (Store { config: Some(*v), ..old(storage).view() }),
         r is Err ==> final(storage).view() == old(storage).view(),
 { unimplemented!() }
@@ -25,6 +26,7 @@ pub fn item_may_load__VAMM_LIST(storage: &dyn Storage) -> (r: StdResult<Option<V
 #[verifier::external_body]
 pub fn item_save__VAMM_LIST(storage: &mut dyn Storage, v: &Vec<Addr>) -> (r: StdResult<()>)
     ensures
+        r is Ok,   // serde serialisation of these plain types cannot fail (T4)
         r is Ok ==> final(storage).view() == (Store { vamm_list: Some(v@), ..old(storage).view() }),
         r is Err ==> final(storage).view() == old(storage).view(),
 { unimplemented!() }
